@@ -105,8 +105,7 @@ class Ghost:
         self.retired = {}
         self.freed = {}
         self.next_id = None
-        self.pending_rounds = {}
-        self.round_need = None
+        self.rounds = {}
 
     def step(self, op, out, idx):
         probs = []
@@ -137,6 +136,23 @@ class Ghost:
             self.freed[p] = idx
             if self.wait.get(p):
                 probs.append('block %d freed while thread(s) %s registered at the request have not quiesced since' % (p, sorted(self.wait[p])))
+        # C06 three rounds: a round = every thread registered at its end has passed through quiescent() within it
+        for p, st in list(self.rounds.items()):
+            if p in self.freed:
+                del self.rounds[p]
+                continue
+            if k == 'Q':
+                st[1].add(i)
+            if k == 'G':
+                st[1].discard(i)  # a (re)registered thread has to pass through a quiescent state of its own within the round
+            if self.reg and self.reg <= st[1]:
+                st[0] += 1
+                st[1] = set()
+                if st[0] >= 3:
+                    probs.append('block %d still pending at the end of the third quiescent round after its request' % p)
+                    del self.rounds[p]
+        if k == 'R' and pid not in self.freed:
+            self.rounds[pid] = [0, set()]
         if int(f.get('T', -1)) != len(self.reg):
             probs.append('thread count %s reported, %d registered' % (f.get('T'), len(self.reg)))
         return probs
